@@ -70,13 +70,18 @@ def main(tier, seed):
                             chk.inconclusive.append('translator validation FAILED: %r engine %s public API %s' % (text, eng, nres))
                 chk.validated += okc
                 chk.log('%s: %d/%d sampled paths agree with goto_definition on the rendered program' % (name, okc, tot))
+        # module-level name spaces (imports, aliases, value vs type namespace)
+        from . import modscope
+        modscope.W = scopes.W
+        modscope.part_c05(chk, tier, jobs, oracle)
     finally:
         oracle.close(); scopes.W.cleanup()
     chk.assumptions += [
+        'module-scope kernel: def::scope::module_scope_with_map_query on its real MIR with the database havoc\'d, one module import (alias symbolic) and one unqualified import whose resolution yields a symbolic (type-import flag, definition kind) pair; that resolve_import finds the exporting module\'s public declarations is assumed (probed through goto_definition on a three-module workspace)',
         'kernel claim: the first two anchored mechanisms (expression-scope construction and innermost-first lookup) on function bodies built directly as arena data from %d templates '
         '(let chains, nested blocks, case clauses with tuple/list/spread/as/alternative/constructor/concat patterns, lambdas, use, calls, pipes, functions without parameters); every identifier is symbolic over a small pool' % len(scopes.TEMPLATES),
         'Gleam rejects duplicate names inside one pattern / parameter list: such assignments are excluded',
-        'syntax -> Body lowering, module scope, imports, the type namespace, classification and navigation targets need rowan trees and the salsa database and are outside the claim '
+        'syntax -> Body lowering, the declarations a module exports, classification and navigation targets need rowan trees and the salsa database and are outside the claim '
         '(they are exercised only by the native replay / translator validation through ide::Analysis::goto_definition)']
     chk.trusted += ['rustc MIR', 'mirsym interpreter + la_arena / SmolStr / Arc models', 'z3', 'reference scoping rules in specs/scopes.py Builder (visible binders, innermost first)']
     return chk.finish()
